@@ -124,7 +124,7 @@ pub trait Engine: Sync {
         case.clone()
     }
     /// a worker died while executing a case
-    fn classify_crash(&self, how: &str, stderr_tail: &str) -> Verdict {
+    fn classify_crash(&self, how: &str, stderr_tail: &str, _stage: &str) -> Verdict {
         Verdict::Violation {
             class: "crash".into(),
             msg: format!("worker died ({how}): {}", last_lines(stderr_tail, 6)),
@@ -195,28 +195,39 @@ pub fn protocol_out() -> std::fs::File {
     }
 }
 
+static PROTO: Mutex<Option<std::fs::File>> = Mutex::new(None);
+
+fn proto_line(line: &str) {
+    if let Some(f) = PROTO.lock().unwrap().as_mut() {
+        writeln!(f, "{line}").unwrap();
+        f.flush().unwrap();
+    }
+}
+
+/// Tells the parent how far the current run got (so that a worker death can be attributed to
+/// the reference execution or to the execution under test).
+pub fn stage(name: &str) {
+    proto_line(&format!("P {name}"));
+}
+
 pub fn worker_main(e: &dyn Engine, seed: u64, lo: u64, hi: u64, tier: Tier) {
-    let mut out = protocol_out();
+    *PROTO.lock().unwrap() = Some(protocol_out());
     for i in lo..hi {
         let case = e.generate(seed, i, tier);
-        writeln!(out, "B {i}").unwrap();
-        out.flush().unwrap();
+        proto_line(&format!("B {i}"));
         let r = e.execute(&case);
-        writeln!(out, "E {i} {}", r.to_json()).unwrap();
-        out.flush().unwrap();
+        proto_line(&format!("E {i} {}", r.to_json()));
     }
 }
 
 pub fn exec_main(e: &dyn Engine, file: &str) {
-    let mut out = protocol_out();
+    *PROTO.lock().unwrap() = Some(protocol_out());
     let text = std::fs::read_to_string(file).expect("case file");
     let j: Value = serde_json::from_str(&text).expect("case json");
     let case = if j.get("case").is_some() { j["case"].clone() } else { j };
-    writeln!(out, "B 0").unwrap();
-    out.flush().unwrap();
+    proto_line("B 0");
     let r = e.execute(&case);
-    writeln!(out, "E 0 {}", r.to_json()).unwrap();
-    out.flush().unwrap();
+    proto_line(&format!("E 0 {}", r.to_json()));
 }
 
 // ------------------------------------------------------------------ parent side
@@ -335,12 +346,16 @@ fn run_chunk(e: &dyn Engine, ctx: &Ctx, ch: &Chunk, agg: &Mutex<Aggregate>, wid:
             }
         });
         let mut current: Option<u64> = None;
+        let mut stage = String::new();
         let mut next = lo;
         for line in BufReader::new(stdout).lines() {
             let Ok(line) = line else { break };
             progress.lock().unwrap().0 = Instant::now();
             if let Some(rest) = line.strip_prefix("B ") {
                 current = rest.trim().parse().ok();
+                stage.clear();
+            } else if let Some(rest) = line.strip_prefix("P ") {
+                stage = rest.trim().to_string();
             } else if let Some(rest) = line.strip_prefix("E ") {
                 let (idx, js) = rest.split_once(' ').unwrap_or((rest, "null"));
                 let i: u64 = idx.parse().unwrap_or(u64::MAX);
@@ -382,7 +397,7 @@ fn run_chunk(e: &dyn Engine, ctx: &Ctx, ch: &Chunk, agg: &Mutex<Aggregate>, wid:
                         msg: format!("no progress for {} s", limit.as_secs()),
                     }
                 } else {
-                    e.classify_crash(&how, &tail)
+                    e.classify_crash(&how, &tail, &stage)
                 };
                 r.trace_hash = crate::rng::fnv_u64(0xdead, i);
                 agg.lock().unwrap().absorb(&ch.profile, i, &r);
@@ -497,9 +512,12 @@ pub fn run_isolated(e: &dyn Engine, ctx: &Ctx, profile: &str, case: &Value, tag:
     *done.lock().unwrap() = true;
     let hung = wd.join().unwrap_or(false);
     let mut result = None;
+    let mut stage = String::new();
     for line in text.lines() {
         if let Some(rest) = line.strip_prefix("E 0 ") {
             result = serde_json::from_str::<Value>(rest).ok().and_then(|j| RunResult::from_json(&j));
+        } else if let Some(rest) = line.strip_prefix("P ") {
+            stage = rest.trim().to_string();
         }
     }
     let r = match result {
@@ -512,7 +530,7 @@ pub fn run_isolated(e: &dyn Engine, ctx: &Ctx, profile: &str, case: &Value, tag:
             r.verdict = if hung {
                 Verdict::Violation { class: "hang".into(), msg: "no progress".into() }
             } else {
-                e.classify_crash(&describe_status(&status, false), &tail)
+                e.classify_crash(&describe_status(&status, false), &tail, &stage)
             };
             r
         }
